@@ -778,6 +778,181 @@ fn cmd_accepts() {
     }
 }
 
+/// The reference value of spec/Game.v written directly against the engine's board API: full-width negamax, no windows, no
+/// ordering, no cache (check extension, capture quiescence with stand-pat, fifty-move / repetition draws, mate by distance,
+/// ply cap).  Exponential: for sparse positions.
+fn ref_vq(b: &mut Board, ply: u32) -> i32 {
+    if ply == 255 {
+        return 0;
+    }
+    let mut best = i32::from(SimpleEvaluator.evaluate(b));
+    for m in b.get_filtered_moves(Ply::is_capture) {
+        if b.is_legal_move(m).is_err() {
+            continue;
+        }
+        b.make_move(m);
+        let v = -ref_vq(b, ply + 1);
+        b.unmake_move();
+        if v > best {
+            best = v;
+        }
+    }
+    best
+}
+
+fn ref_v(b: &mut Board, depth: u32, ply: u32) -> i32 {
+    if ply == 255 {
+        return 0;
+    }
+    if b.get_halfmove_clock() >= 100 {
+        return 0;
+    }
+    if b.position_reached(b.zkey) {
+        return 0;
+    }
+    let in_check = b.is_in_check(b.current_turn);
+    let depth = if in_check { depth + 1 } else { depth };
+    if depth == 0 {
+        return ref_vq(b, ply);
+    }
+    let mut best: Option<i32> = None;
+    for m in b.get_all_moves() {
+        if b.is_legal_move(m).is_err() {
+            continue;
+        }
+        b.make_move(m);
+        let v = -ref_v(b, depth - 1, ply + 1);
+        b.unmake_move();
+        best = Some(best.map_or(v, |x| x.max(v)));
+    }
+    match best {
+        Some(v) => v,
+        None => {
+            if in_check {
+                -32768 + ply as i32
+            } else {
+                0
+            }
+        }
+    }
+}
+
+/// The same value by textbook fail-soft alpha-beta (no cache, no ordering, no re-searches): used where the plain recursion is
+/// too slow; cross-checked against it at smaller depths on every run.
+fn ref_ab_q(b: &mut Board, alpha: i32, beta: i32, ply: u32) -> i32 {
+    if ply == 255 {
+        return 0;
+    }
+    let mut best = i32::from(SimpleEvaluator.evaluate(b));
+    if best >= beta {
+        return best;
+    }
+    let mut a = alpha.max(best);
+    for m in b.get_filtered_moves(Ply::is_capture) {
+        if b.is_legal_move(m).is_err() {
+            continue;
+        }
+        b.make_move(m);
+        let v = -ref_ab_q(b, -beta, -a, ply + 1);
+        b.unmake_move();
+        if v > best {
+            best = v;
+        }
+        if best >= beta {
+            break;
+        }
+        a = a.max(best);
+    }
+    best
+}
+
+fn ref_ab(b: &mut Board, depth: u32, alpha: i32, beta: i32, ply: u32) -> i32 {
+    if ply == 255 {
+        return 0;
+    }
+    if b.get_halfmove_clock() >= 100 {
+        return 0;
+    }
+    if b.position_reached(b.zkey) {
+        return 0;
+    }
+    let in_check = b.is_in_check(b.current_turn);
+    let depth = if in_check { depth + 1 } else { depth };
+    if depth == 0 {
+        return ref_ab_q(b, alpha, beta, ply);
+    }
+    let mut best: Option<i32> = None;
+    let mut a = alpha;
+    for m in b.get_all_moves() {
+        if b.is_legal_move(m).is_err() {
+            continue;
+        }
+        b.make_move(m);
+        let v = -ref_ab(b, depth - 1, -beta, -a, ply + 1);
+        b.unmake_move();
+        best = Some(best.map_or(v, |x| x.max(v)));
+        if v >= beta {
+            break;
+        }
+        a = a.max(v);
+    }
+    match best {
+        Some(v) => v,
+        None => {
+            if in_check {
+                -32768 + ply as i32
+            } else {
+                0
+            }
+        }
+    }
+}
+
+/// refvalue: stdin lines "FEN | moves | depth[a]" (a = by the alpha-beta reference) -> {"vroot": v|null, "moves": [[ply, value], ...]} (values of the root moves)
+fn cmd_refvalue() {
+    let mut o = out();
+    for line in std::io::stdin().lock().lines() {
+        let line = line.unwrap();
+        let parts: Vec<&str> = line.split('|').collect();
+        if parts.len() < 3 {
+            continue;
+        }
+        let fen = parts[0].trim().to_string();
+        let moves = parts[1].trim().to_string();
+        let dtxt = parts[2].trim().to_string();
+        let use_ab = dtxt.ends_with('a');
+        let depth: u32 = dtxt.trim_end_matches('a').parse().unwrap_or(1);
+        let r = catch_unwind(AssertUnwindSafe(|| {
+            let mut b = Board::from_fen(&fen);
+            for m in moves.split_whitespace() {
+                let p = b.find_move(m).expect("bad move");
+                b.make_move(p);
+            }
+            let mut vals: Vec<String> = Vec::new();
+            let mut best: Option<i32> = None;
+            for m in b.get_all_moves() {
+                if b.is_legal_move(m).is_err() {
+                    continue;
+                }
+                b.make_move(m);
+                let v = if use_ab {
+                    -ref_ab(&mut b, depth.saturating_sub(1), -100_000, 100_000, 1)
+                } else {
+                    -ref_v(&mut b, depth.saturating_sub(1), 1)
+                };
+                b.unmake_move();
+                vals.push(format!("[{},{}]", enc_ply(&m), v));
+                best = Some(best.map_or(v, |x| x.max(v)));
+            }
+            format!("{{\"vroot\":{},\"moves\":[{}]}}", best.map_or("null".to_string(), |v| v.to_string()), vals.join(","))
+        }));
+        match r {
+            Ok(s) => writeln!(o, "{s}").unwrap(),
+            Err(_) => writeln!(o, "{{\"panic\":true}}").unwrap(),
+        }
+    }
+}
+
 pub fn main(args: &[String]) {
     // keep panics quiet: they are reported as outcomes
     std::panic::set_hook(Box::new(|_| {}));
@@ -789,6 +964,7 @@ pub fn main(args: &[String]) {
         "walk" => cmd_walk(&args[1..]),
         "fen" => cmd_fen(),
         "accepts" => cmd_accepts(),
+        "refvalue" => cmd_refvalue(),
         "tofen" => cmd_tofen(),
         "randfens" => cmd_randfens(&args[1..]),
         "eval" => cmd_eval(),
